@@ -248,6 +248,8 @@ def main():
             "model_only_disagreements": len(model_only),
             "extracted_tables": ext["tables"],
             "exhaustive": False,
+            "discharged_hypotheses": cx.hypotheses_of(mods)[1],
+            "partial_theorems": cx.hypotheses_of(mods)[2],
             **extra,
         },
         "assumptions": list(getattr(P, "ASSUMPTIONS", [])) + cx.assumptions_of(mods),
